@@ -19,10 +19,42 @@ SHRINK_LISTS = ["sa", "sb"]
 SHRINK_SPECS = []
 
 
+def content_matrix(rng):
+    """a sparse container (bins created on demand) whose content differs in one parameter or in its type: the operands may
+    be empty or hold disjoint bins, so only the container's own content check can notice"""
+    import copy
+
+    leaf = gen.gen_spec(rng, 0, kinds=gen.LEAVES)
+    if leaf["k"] == "Bag" or rng.random() < 0.3:
+        r = rng.choice(["S", "N", "N2"])
+        leaf = {"k": "Bag", "q": [{"S": gen.PURE_STR_COL, "N": 0, "N2": gen.VEC_COL}[r], None], "range": r}
+        r2 = rng.choice([x for x in ("S", "N", "N2") if x != r])
+        leaf2 = {"k": "Bag", "q": [{"S": gen.PURE_STR_COL, "N": 0, "N2": gen.VEC_COL}[r2], None], "range": r2}
+        desc = "Bag range %s vs %s as content of a sparse container" % (r, r2)
+    else:
+        leaf2 = copy.deepcopy(leaf)
+        leaf2["k"] = rng.choice([k for k in ("Sum", "Average", "Deviate", "Minimize", "Maximize") if k != leaf["k"]])
+        if "q" not in leaf2:
+            leaf2["q"] = [0, None]
+        desc = "content type %s vs %s of a sparse container" % (leaf["k"], leaf2["k"])
+    if rng.random() < 0.5:
+        mk = lambda v: {"k": "Categorize", "q": [gen.STR_COL, None], "value": v}  # noqa: E731
+    else:
+        mk = lambda v: {"k": "SparselyBin", "q": [1, None], "width": 1, "origin": 0.0, "value": v, "nanflow": {"k": "Count"}}  # noqa: E731
+    return mk(leaf), mk(leaf2), desc, 1
+
+
 def gen_params(rng, tier):
+    if rng.random() < 0.15:
+        spec, spec2, desc, depth = content_matrix(rng)
+        g = lambda s, n: [[d, w] for d, w in gen.gen_stream(rng, s, rng.randint(0, n), gate_rate=0.05)]  # noqa: E731
+        return {"spec": spec, "spec2": spec2, "desc": desc, "depth": depth,
+                "sa": g(spec, 4) if rng.random() < 0.6 else [], "sb": g(spec2, 4) if rng.random() < 0.6 else []}
     for _ in range(50):
-        spec = gen.gen_spec(rng, rng.randint(0, 3))
-        pr = gen.perturb_spec(rng, spec)
+        # a fifth of the cases: binning containers nested in each other over arbitrary leaves (the content checks of the
+        # sparse containers meet every leaf type, Bags of every range included)
+        spec = gen.gen_nested_binning_spec(rng, rng.randint(1, 2)) if rng.random() < 0.2 else gen.gen_spec(rng, rng.randint(0, 3))
+        pr = gen.perturb_spec(rng, spec, allow_dupcenter=True)
         if pr is None:
             continue
         spec2, desc, depth = pr
